@@ -132,7 +132,7 @@ def bands(rec, part, parts):
             return 'the prediction data frame passed in was modified'
         # predictions of several observables in one frame (labels of any type, also falsy ones): the band of the chosen observable is
         # computed from that observable's rows only
-        for labels in (('o', 'other'), (1, 0), ('B', '')):
+        for labels in ((('o', 'other'), (1, 0), ('B', '')) if (kind == 'random' or sum(payload) % 4 == 0) else ()):     # (a quarter of the tie patterns, every random set)
             parts_ = []
             for j, lab in enumerate(labels):
                 d_ = df.copy(deep=True)
